@@ -11,7 +11,7 @@ from ..core import real
 from ..oracle import caching_flags_off
 from ..oracle import (L, ed_verify, sig_message, base_mult, point_add, pubkey_of_seed,
                       scalar_to_int, int_to_scalar, as_key_arg, PREFIXES,
-                      LOCK_FORMS, LIMITS, in_form, ARG_STYLES, styled_flags,
+                      LOCK_FORMS, LIMITS, in_form, ARG_STYLES, styled_flags, malleate,
                       styled_sigfields, maybe_twice)
 
 PID = 'C17'
@@ -635,6 +635,14 @@ def execute(plan, run):
                 if ok:
                     run.probe('honest_spend_accepted')
                     e.published = e.sig
+                    # the same signature with S + L for S (a third party can compute it
+                    # from the publication): not a valid Ed25519 signature, not a spend
+                    mal = malleate(e.sig)
+                    run.probe('malleated_signature')
+                    run.check('V6_only_t_decrypts',
+                              not spend(e, mal, run) and not ed_verify(e.X, e.m, mal),
+                              'C17/%s/malleated_signature_accepted' % e.v, step=i,
+                              detail={'ex': e.spec})
                 run.ev('publish', i, e.eid, 'B', ok)
             else:
                 src = e.validated or e.sent
